@@ -143,7 +143,8 @@ type c04Client struct {
 	tx    interfaces.Transaction
 	txid  int
 	open  bool
-	stage atomic.Int64 // index of the op being executed (diagnosis of hangs)
+	stage atomic.Int64 // index of the op being executed, -1 when the client is done
+	inBegin atomic.Int64 // UnixNano at which the current BeginTransaction was issued, 0 outside Begin
 }
 
 func parseC04(c *Case) (ops []*c04Op, nclients int, err error) {
@@ -233,7 +234,9 @@ func (cl *c04Client) exec(e *engine.EngineFacade, op *c04Op) {
 			cl.open = false
 		}
 		cl.record(c04Ev{tx: op.txid, kind: "begin", ro: op.ro}, func(ev *c04Ev) {
+			cl.inBegin.Store(time.Now().UnixNano())
 			tx, err := e.BeginTransaction(op.ro)
+			cl.inBegin.Store(0)
 			ev.status = c04Status(err)
 			if err == nil {
 				cl.tx, cl.txid, cl.open = tx, op.txid, true
@@ -294,6 +297,7 @@ func (cl *c04Client) exec(e *engine.EngineFacade, op *c04Op) {
 // runRep runs the program once on a fresh engine; returns the history ordered by return
 // ticket, or hang=true with the clients that never finished.
 func runRepC04(ops []*c04Op, nclients int, mode string, yseed int64, waitMs int, hangAfter time.Duration) (hist []c04Ev, hang bool, stuck string, err error) {
+	c04Ticket.Store(0)
 	dir := tmpDir("c04-")
 	e, err := openEngine(dir)
 	if err != nil {
@@ -356,17 +360,46 @@ func runRepC04(ops []*c04Op, nclients int, mode string, yseed int64, waitMs int,
 	}
 	finished := make(chan struct{})
 	go func() { wg.Wait(); close(finished) }()
-	select {
-	case <-finished:
-	case <-time.After(hangAfter):
-		var s []string
-		for _, cl := range clients {
-			if st := cl.stage.Load(); st >= 0 {
-				s = append(s, fmt.Sprintf("client %d at its op #%d", cl.id, st))
+	// Everything has been handed out. No progress is possible any more when every client that is
+	// not done sits inside BeginTransaction (each client finishes its previous transaction before
+	// it begins the next, so nobody who could release the lock is left); that state, held for
+	// `quiet`, or no end after hangAfter, is reported as a hang.
+	const quiet = 400 * time.Millisecond
+	deadline := time.Now().Add(hangAfter)
+	tick := time.NewTicker(20 * time.Millisecond)
+	defer tick.Stop()
+wait:
+	for {
+		select {
+		case <-finished:
+			break wait
+		case <-tick.C:
+			now := time.Now()
+			allBlocked, any := true, false
+			for _, cl := range clients {
+				if cl.stage.Load() < 0 {
+					continue
+				}
+				any = true
+				if b := cl.inBegin.Load(); b == 0 || now.Sub(time.Unix(0, b)) < quiet {
+					allBlocked = false
+				}
+			}
+			if (any && allBlocked) || now.After(deadline) {
+				var s []string
+				for _, cl := range clients {
+					if st := cl.stage.Load(); st >= 0 {
+						w := "running"
+						if cl.inBegin.Load() != 0 {
+							w = "waiting in BeginTransaction"
+						}
+						s = append(s, fmt.Sprintf("client %d at its op #%d %s", cl.id, st, w))
+					}
+				}
+				// the engine and the stuck goroutines are abandoned
+				return nil, true, strings.Join(s, ", "), nil
 			}
 		}
-		// the engine and the stuck goroutines are abandoned
-		return nil, true, strings.Join(s, ", "), nil
 	}
 	for _, cl := range clients {
 		hist = append(hist, cl.evs...)
@@ -379,9 +412,19 @@ func runRepC04(ops []*c04Op, nclients int, mode string, yseed int64, waitMs int,
 			maxtx = ev.tx
 		}
 	}
-	obs.exec(e, &c04Op{kind: "begin", ro: true, txid: maxtx + 1})
-	obs.exec(e, &c04Op{kind: "scan"})
-	obs.exec(e, &c04Op{kind: "commit"})
+	obsDone := make(chan struct{})
+	go func() {
+		obs.exec(e, &c04Op{kind: "begin", ro: true, txid: maxtx + 1})
+		obs.exec(e, &c04Op{kind: "scan"})
+		obs.exec(e, &c04Op{kind: "commit"})
+		close(obsDone)
+	}()
+	select {
+	case <-obsDone:
+	case <-time.After(2 * time.Second):
+		// every client is done, so nobody is left who could release the lock
+		return nil, true, "all transactions have ended, yet a new read-only transaction cannot begin", nil
+	}
 	hist = append(hist, obs.evs...)
 	sort.Slice(hist, func(i, j int) bool { return hist[i].ret < hist[j].ret })
 	e.Close()
@@ -770,7 +813,7 @@ func runC04(c *Case, out func(string)) {
 	reps, _ := strconv.Atoi(hdrVal(c.Hdr, "reps", "1"))
 	yseed, _ := strconv.ParseInt(hdrVal(c.Hdr, "yseed", "1"), 10, 64)
 	waitMs, _ := strconv.Atoi(hdrVal(c.Hdr, "wait", "4"))
-	hangS, _ := strconv.Atoi(hdrVal(c.Hdr, "hang", "8"))
+	hangS, _ := strconv.Atoi(hdrVal(c.Hdr, "hang", "30"))
 	if reps < 1 {
 		reps = 1
 	}
@@ -784,7 +827,7 @@ func runC04(c *Case, out func(string)) {
 		}
 		if hang {
 			if fail == "" {
-				fail = fmt.Sprintf("rep %d: no progress for %ds, the lock was never released: %s", rep, hangS, stuck)
+				fail = fmt.Sprintf("rep %d: no progress possible, the isolation lock is never released: %s", rep, stuck)
 			}
 			break
 		}
